@@ -130,6 +130,9 @@ func runC20(c *Cfg) {
 	fam("flat", func() { c20FlatFamily(c, root.Sub()) })
 	fam("generated", func() { c20Generated(c, root.Sub()) })
 	fam("seeds", func() { c20Seeds(c, root.Sub()) })
+	fam("writeback", func() {
+		c20RunCases(c, c20WriteBackCases(root.Sub(), c.Pick(100, 600), c.Thorough()), !c.Focus)
+	})
 	if !c.Focus {
 		fam("cli", func() { c20CLI(c, root.Sub()) })
 	}
